@@ -1,6 +1,7 @@
 import BoltonsVerif.Common
 import BoltonsVerif.C02.Model
 import BoltonsVerif.C02.LL
+import BoltonsVerif.C02.Reent
 /-
 C02 line protocol.  One line = one whole history over a small "world" of caches
 (cache 0 is constructed by the header, every `copy` appends a cache):
@@ -11,7 +12,13 @@ C02 line protocol.  One line = one whole history over a small "world" of caches
   (`LL.lean`: `hwstep`, the linked list with PREV / NEXT fields and the rotating anchor).  Both print the same text.
 
   on_miss `a,b` is the function k ↦ a*k+b; with `/ke/ve` (key lists `k.k.k` or `-`) it raises
-  KeyError for the keys in ke and ValueError for the keys in ve;  keys, values are naturals (value 0 stands for
+  KeyError for the keys in ke and ValueError for the keys in ve;  with `/ke/ve/prog/depth` it is RE-ENTRANT
+  (`Reent.lean`): `prog` = `k=op+op+…~k=op+…` gives, per key, the calls on_miss(k) makes on the cache it was
+  called from (op tokens as below with cache number 0; `?op` = the call is wrapped in try / except Exception: pass;
+  `@w:kt:op` = `if (kt in cache) == (w = 1): op`, a callback that branches on what it sees)
+  before it returns / raises as `a,b/ke/ve` say (`a,b,st`: it returns a*k+b+st*(number of earlier on_miss calls on this
+  cache), a callback with state); `depth` is the nesting depth at which the callback raises ValueError instead (the
+  interpreter's fuel);  keys, values are naturals (value 0 stands for
   Python's None);  pairs are `k.v,k.v,...` (`-` = empty);  `i`,`j` are cache numbers.
     s:i:k:v      c[k] = v                 g:i:k        c[k]
     d:i:k        del c[k]                 G:i:k:v      c.get(k, v)
@@ -141,63 +148,145 @@ def logLenH (w : List H) (i : Nat) : Nat := match w[i]? with
 def recordH (nk : Nat) (res : String) (calls : List Nat) (w : List H) : String :=
   "|".intercalate (s!"{res}@{showNats calls}" :: w.map (dumpH nk))
 
+/-- one statement of a harness callback: a call (`true` = wrapped in `try: … except Exception: pass`), or
+    `if (kt in cache) == want: call` — the callback BRANCHES on what the membership test answers -/
+inductive OmStmt where
+  | plain (guarded : Bool) (op : Op Nat Nat)
+  | cond (want : Bool) (kt : Nat) (guarded : Bool) (op : Op Nat Nat)
+
+/-- the callback as a strategy tree: the statements in order, then the outcome `r`; an exception of a call that is
+    not guarded ends the callback with it -/
+def ofStmts : List OmStmt → OmRes Nat → OmProg Nat Nat
+  | [], r => .done r
+  | .plain g a :: rest, r => .call a fun o =>
+    match o with
+    | .keyError => if g then ofStmts rest r else .done .keyError
+    | .raised => if g then ofStmts rest r else .done .error
+    | _ => ofStmts rest r
+  | .cond want kt g a :: rest, r => .call (.contains kt) fun t =>
+    match t with
+    | .bool b =>
+      if b = want then .call a fun o =>
+        match o with
+        | .keyError => if g then ofStmts rest r else .done .keyError
+        | .raised => if g then ofStmts rest r else .done .error
+        | _ => ofStmts rest r
+      else ofStmts rest r
+    | _ => ofStmts rest r
+
+/-- `?op` / `op` -> (guarded, call on cache 0) -/
+def parseAct? (t : String) : Option (Bool × Op Nat Nat) :=
+  let guarded := t.startsWith "?"
+  match parseOp? 1 (if guarded then (t.drop 1).toString else t) with
+  | some (.on _ op) => some (guarded, op)
+  | _ => none
+
+/-- `k=stmt+stmt~k=stmt…` -> the statements of on_miss(k), per key; a statement is `op`, `?op` (the call is wrapped
+    in `try: … except Exception: pass`) or `@w:kt:op` / `@w:kt:?op` (`if (kt in cache) == (w = 1): op`) -/
+def parseProg? (s : String) : Option (List (Nat × List OmStmt)) :=
+  if s = "-" ∨ s = "" then some [] else
+  (splitOnChar s '~').foldr (fun w acc =>
+    match acc, splitOnChar w '=' with
+    | some l, [k, body] =>
+      match k.toNat? with
+      | none => none
+      | some k =>
+        let stmts : Option (List OmStmt) :=
+          if body = "-" ∨ body = "" then some [] else
+          (splitOnChar body '+').foldr (fun t acc =>
+            match acc with
+            | none => none
+            | some l =>
+              if t.startsWith "@" then
+                match splitOnChar ((t.drop 1).toString) ':' with
+                | w :: kt :: rest =>
+                  match w.toNat?, kt.toNat?, parseAct? (":".intercalate rest) with
+                  | some w, some kt, some (g, op) => some (.cond (w = 1) kt g op :: l)
+                  | _, _, _ => none
+                | _ => none
+              else
+                match parseAct? t with
+                | some (g, op) => some (.plain g op :: l)
+                | none => none) (some [])
+        stmts.map fun a => (k, a) :: l
+    | _, _ => none) (some [])
+
+/-- the history loop, for any representation of the caches -/
+def loop {W : Type} (wlen : W → Nat) (wst : W → WOp Nat Nat → W × String) (logLen : W → Nat → Nat)
+    (callsOf : W → Nat → Nat → List Nat) (rec : String → List Nat → W → String) :
+    W → List String → List String → Option (List String)
+  | _, [], acc => some acc.reverse
+  | w, t :: ts, acc =>
+    match parseOp? (wlen w) t with
+    | none => none
+    | some op =>
+      let i := target op
+      let before := logLen w i
+      let (w', o) := wst w op
+      loop wlen wst logLen callsOf rec w' ts (rec o (callsOf w' i before) w' :: acc)
+
 def handle (line : String) : String :=
   match words line with
   | lru :: mx :: om :: nk :: init :: toks =>
-    let onMiss? : Option (Option (Nat → OmRes Nat)) :=
-      if om = "-" then some none else
+    let resOf (a b : Nat) (ke ve : List Nat) : Nat → OmRes Nat :=
+      fun k => if ke.contains k then .keyError else if ve.contains k then .error else .ret (a * k + b)
+    -- (on_miss as a function of the key; re-entrant part: calls per key, state factor, depth)
+    let onMiss? : Option (Option (Nat → OmRes Nat) × Option (List (Nat × List OmStmt) × Nat × Nat × Nat × Nat × List Nat × List Nat)) :=
+      if om = "-" then some (none, none) else
       match splitOnChar om '/' with
       | [ab] =>
         match natList? ab with
-        | some [a, b] => some (some fun k => .ret (a * k + b))
+        | some [a, b] => some (some fun k => .ret (a * k + b), none)
         | _ => none
       | [ab, ke, ve] =>
         match natList? ab, natList? ke '.', natList? ve '.' with
-        | some [a, b], some ke, some ve =>
-          some (some fun k => if ke.contains k then .keyError else if ve.contains k then .error
-                              else .ret (a * k + b))
+        | some [a, b], some ke, some ve => some (some (resOf a b ke ve), none)
         | _, _, _ => none
+      | [ab, ke, ve, prog, depth] =>
+        match natList? ab, natList? ke '.', natList? ve '.', parseProg? prog, depth.toNat? with
+        | some [a, b], some ke, some ve, some prog, some depth =>
+          some (some (resOf a b ke ve), some (prog, depth, a, b, 0, ke, ve))
+        | some [a, b, st], some ke, some ve, some prog, some depth =>
+          some (some (resOf a b ke ve), some (prog, depth, a, b, st, ke, ve))
+        | _, _, _, _, _ => none
       | _ => none
     match lru.toNat?, mx.toNat?, onMiss?, nk.toNat?, parsePairs? init with
-    | some lru, some mx, some onMiss, some nk, some init =>
+    | some lru, some mx, some (onMiss, re), some nk, some init =>
       if mx = 0 ∨ 3 < lru then "bad-op" else
+      -- the re-entrant on_miss as a strategy table: the calls of the key's program in order, then the outcome
+      -- a*k + b + st * (number of earlier on_miss calls on this cache), or the exception chosen by ke / ve
+      let P : List Nat → Nat → OmProg Nat Nat := fun lg k =>
+        match re with
+        | some (prog, _, a, b, st, ke, ve) =>
+          ofStmts ((lookup k prog).getD [])
+            (if ke.contains k then .keyError else if ve.contains k then .error else .ret (a * k + b + st * lg.length))
+        | none => .done .keyError
+      let depthOf : Nat := match re with
+        | some (_, depth, _) => depth
+        | none => 0
+      let re : Option Unit := re.map fun _ => ()
+      let showStep {X : Type} (r : List X × Out Nat Nat X) : List X × String := (r.1, showOut r.2)
       if 2 ≤ lru then
         -- the pointer-level model
         let h0 : H := (HCache.initP (lru = 3) mx onMiss).setAll init
-        let rec goH (w : List H) (toks : List String) (acc : List String) : Option (List String) :=
-          match toks with
-          | [] => some acc.reverse
-          | t :: ts =>
-            match parseOp? w.length t with
-            | none => none
-            | some op =>
-              let i := target op
-              let before := logLenH w i
-              let (w', o) := hwstep w op
-              let calls := match w'[i]? with
-                | some c => c.omLog.drop before
-                | none => []
-              goH w' ts (recordH nk (showOut o) calls w' :: acc)
-        match goH [h0] toks [recordH nk "-" [] [h0]] with
+        let wst : List H → WOp Nat Nat → List H × String := match re with
+          | some _ => fun w op => showStep (rhwstep P depthOf w op)
+          | none => fun w op => showStep (hwstep w op)
+        let callsOf (w : List H) (i before : Nat) : List Nat := match w[i]? with
+          | some c => c.omLog.drop before
+          | none => []
+        match loop List.length wst logLenH callsOf (recordH nk) [h0] toks [recordH nk "-" [] [h0]] with
         | some outs => ";".intercalate outs
         | none => "bad-op"
       else
       let c0 : C := (Cache.initP (lru = 1) mx onMiss).setAll init
-      let rec go (w : List C) (toks : List String) (acc : List String) : Option (List String) :=
-        match toks with
-        | [] => some acc.reverse
-        | t :: ts =>
-          match parseOp? w.length t with
-          | none => none
-          | some op =>
-            let i := target op
-            let before := logLen w i
-            let (w', o) := wstep w op
-            let calls := match w'[i]? with
-              | some c => c.omLog.drop before
-              | none => []
-            go w' ts (record nk (showOut o) calls w' :: acc)
-      match go [c0] toks [record nk "-" [] [c0]] with
+      let wst : List C → WOp Nat Nat → List C × String := match re with
+        | some _ => fun w op => showStep (rwstep P depthOf w op)
+        | none => fun w op => showStep (wstep w op)
+      let callsOf (w : List C) (i before : Nat) : List Nat := match w[i]? with
+        | some c => c.omLog.drop before
+        | none => []
+      match loop List.length wst logLen callsOf (record nk) [c0] toks [record nk "-" [] [c0]] with
       | some outs => ";".intercalate outs
       | none => "bad-op"
     | _, _, _, _, _ => "bad-op"
